@@ -29,13 +29,32 @@ def run_sharded(binary, lines, jobs=16, timeout=1800):
     n = len(lines)
     if n < 64:
         return vlib.run_lines(binary, lines, timeout=timeout)[0]
-    step = (n + jobs - 1) // jobs
-    chunks = [lines[i:i + step] for i in range(0, n, step)]
+    # round-robin so that the cases of a large image are spread over all processes
+    chunks = [lines[k::jobs] for k in range(jobs)]
     with ThreadPoolExecutor(max_workers=jobs) as ex:
-        outs = list(ex.map(lambda c: vlib.run_lines(binary, c, timeout=timeout)[0], chunks))
+        outs = list(ex.map(lambda c: vlib.run_lines(binary, c, timeout=timeout)[0] if c else [], chunks))
+    if binary.endswith("h_load") or "h_load" in os.path.basename(binary):
+        # one "case ... end" block per command
+        blocks = []
+        for o in outs:
+            cur, bl = None, []
+            for l in o:
+                if l == "case":
+                    cur = [l]
+                elif cur is not None:
+                    cur.append(l)
+                    if l == "end":
+                        bl.append(cur)
+                        cur = None
+            blocks.append(bl)
+    else:
+        blocks = [[[l] for l in o if l != ""] for o in outs]
     res = []
-    for o in outs:
-        res.extend(l for l in o if l != "")
+    for idx in range(n):
+        k, j = idx % jobs, idx // jobs
+        if j >= len(blocks[k]):
+            raise RuntimeError("C17: shard %d of %s returned %d results for %d commands" % (k, os.path.basename(binary), len(blocks[k]), len(chunks[k])))
+        res.extend(blocks[k][j])
     return res
 
 
@@ -94,20 +113,21 @@ def run(chk):
         cuts = set()
         # exhaustive over the cut points of the first image (two in thorough) when it is small; otherwise boundaries + a sample + all of the
         # relocation section (the model loader re-parses every prefix: the cost is quadratic in the image size)
-        if (tier == "quick" and cid != "img0") or (tier != "quick" and cid not in ("img0", "img1")) or len(img) > (12000 if tier == "quick" else 20000):
+        if (tier == "quick" and cid != "img0") or (tier != "quick" and cid not in ("img0", "img1")) or len(img) > 9000:
             for x in b:
                 for dd in (-9, -8, -7, -1, 0, 1, 7, 8, 9):
                     if 0 <= x + dd < len(img):
                         cuts.add(x + dd)
-            for _ in range(300 if tier == "quick" else 800):
+            big = len(img) > 9000          # the model loader's cost per case grows with the square of the number of relocations
+            for _ in range(150 if big else 300 if tier == "quick" else 800):
                 cuts.add(chk.rng.below(len(img)))
             # the relocation section is where a cut is hardest to see: all of it when it is short, else every entry boundary +-1 of a sample
             # of entries and a sample of interior points (the model loader is quadratic in the number of relocations)
             rel = range(b[-2], len(img))
-            if len(rel) <= (1200 if tier == "quick" else 2400):
+            if len(rel) <= (1200 if tier == "quick" else 2400) and not big:
                 cuts.update(rel)
             else:
-                for _ in range(400 if tier == "quick" else 800):
+                for _ in range(100 if big else 400 if tier == "quick" else 800):
                     e = b[-2] + 8 * chk.rng.below(len(rel) // 8 + 1)
                     for dd in (-1, 0, 1, 4):
                         if b[-2] <= e + dd < len(img):
@@ -121,8 +141,9 @@ def run(chk):
         for lab, bs in corruptions(img):
             cases.append(("%s:%s" % (cid, lab), bs, "corrupt", cid))
     # malformed stream: random bytes and random byte flips in the relocation section
+    small = [x for x in imgs if len(x[1]) <= 9000] or imgs
     for i in range(50 if tier == "quick" else 400):
-        cid, img, d = chk.rng.choice(imgs)
+        cid, img, d = chk.rng.choice(small)
         if chk.rng.chance(1, 3):
             cases.append(("rand%d" % i, b"YARA" + bytes([img[4]]) + chk.rng.bytes(chk.rng.below(80)), "random", cid))
         else:
